@@ -46,7 +46,8 @@ def run(chk, replay=None):
     th = chk.tier == 'thorough'
     v = streams.vocab()
     families = [('^(ssn|email|name)$', lambda n: n in ('ssn', 'email', 'name')), ('(?i)SSN|Tags', lambda n: re.search('(?i)SSN|Tags', n) is not None),
-                ('uf_', lambda n: 'uf_' in n), ('^addr', lambda n: n.startswith('addr')), ('^zzz$', lambda n: n == 'zzz')]
+                ('uf_', lambda n: 'uf_' in n), ('^addr', lambda n: n.startswith('addr')), ('^zzz$', lambda n: n == 'zzz'),
+                ('sn', lambda n: 'sn' in n), ('ag', lambda n: 'ag' in n), ('mail|core1$', lambda n: re.search('mail|core1$', n) is not None)]
     chk.rule = ("grammar-generated find / update / delete / insert / aggregate lines in which a subset of the user field names matches R, every operator wrapper and array nesting between the "
                 "matching name and the literal; regexp families: anchored alternatives, case-insensitive, substring, prefix, no match; every literal class; "
                 "non-trivial = distinct (regexp, line) pairs containing at least one matching and one non-matching name")
